@@ -135,6 +135,17 @@ class StateAnalysis:
                 for a, sites in self._written([f]).items():
                     self.late_written.setdefault(a, []).extend(sites)
         self.extra_varying = set(extra_varying)
+        # attribute stores whose name is computed (setattr(self, name, v), self.__dict__[k] = v, vars(self)[k] = v): the analysis cannot
+        # tell which attributes they write, so its negative verdicts for this class are not reliable
+        self.dynamic_writes = []
+        for f_ in self.closure:
+            sn = f_.params[0] if f_.params else "self"
+            for c_ in ast.walk(f_.node):
+                if isinstance(c_, ast.Call) and isinstance(c_.func, ast.Name) and c_.func.id == "setattr" and len(c_.args) == 3 and norm(c_.args[0]) == sn \
+                        and not isinstance(c_.args[1], ast.Constant):
+                    self.dynamic_writes.append((f_, c_))
+                elif isinstance(c_, ast.Subscript) and isinstance(c_.ctx, ast.Store) and norm(c_.value) in (f"{sn}.__dict__", f"vars({sn})"):
+                    self.dynamic_writes.append((f_, c_))
         self._memo = {}
         self._summary_memo = {}
         self.stats = dict(functions=len(self.closure), cfg_nodes=sum(len(self.info(f).cfg.nodes) for f in self.closure))
